@@ -35,10 +35,17 @@ def sel_case(draw):
     # labels: mostly small, sometimes not representable in the array's dtype (then necessarily absent)
     lab = st.one_of(st.integers(1, 7), st.integers(1, 7), st.integers(1, 7), st.sampled_from([255, 256, 257, 259, 300, 65535, 65536, 65539, 2**31, 2**32 + 1]))
     ref_idx = draw(lab)
-    if draw(st.booleans()):
+    kind = draw(st.integers(0, 4))
+    if kind <= 1:
         pred_idx = draw(lab)
-    else:
+    elif kind <= 3:
         pred_idx = draw(st.lists(lab, min_size=1, max_size=4))
+    else:
+        # repeated labels around a gap, e.g. [1, 3, 3]: as many entries as a consecutive run would have
+        a, g = draw(st.integers(1, 5)), draw(st.integers(2, 3))
+        pool = [a, a + g]
+        pred_idx = [a, a + g] + [draw(st.sampled_from(pool)) for _ in range(g - 1)]
+        pred_idx = list(draw(st.permutations(pred_idx)))
     return {"kind": "sel", "dtype": dtype, "ref": ref.tolist(), "pred": pred.tolist(), "ref_idx": ref_idx, "pred_idx": pred_idx}
 
 
